@@ -737,23 +737,48 @@ func rawLayers(tier string) []Layer {
 	layers = append(layers, Layer{
 		Name:   "R1-SetBitsExp",
 		Units:  len(vecs),
-		Bounds: fmt.Sprintf("SetBitsExp(mant, exp) for every word vector of length 0..%d over S7 (%d vectors: all-zero, leading zero words, low zero words, unnormalised top words) × %d exponents incl. range ends and int64 extremes × receiver prec %v × 6 modes × receiver pre-states {fresh, held-longer, -Inf}; BitsExp afterwards", L, len(vecs), len(exps), precs),
+		Bounds: fmt.Sprintf("SetBitsExp(mant, exp) for every word vector of length 0..%d over S7 (%d vectors: all-zero, leading zero words, low zero words, unnormalised top words) × %d exponents incl. range ends and int64 extremes × receiver prec %v × 6 modes × receiver pre-states {fresh, held-longer, -Inf, the argument is the receiver's own BitsExp() slice edited in place}; BitsExp afterwards", L, len(vecs), len(exps), precs),
 		Run: func(c *Ctx, u int) {
 			raw := vecs[u]
 			ci := wordsToInt(raw)
 			for _, e := range exps {
 				for _, p := range precs {
 					for _, m := range M6 {
-						for _, pre := range []int{preFresh, preLonger, preNegInf} {
+						for _, pre := range []int{preFresh, preLonger, preNegInf, -1} {
+							if pre == -1 && (len(raw) == 0 || (p != 0 && int(p) < DW*len(raw))) {
+								continue // own-slice case needs a receiver whose mantissa has len(raw) words
+							}
 							if c.Skip() {
 								continue
 							}
-							z := buildPre(pre, p, m)
+							var z *Dec
 							// a negative receiver must become positive
 							buf := toWords(raw)
+							pn := ""
+							if pre >= 0 {
+								z = buildPre(pre, p, m)
+								pn = preNames[pre]
+							} else {
+								// the argument is the receiver's own mantissa slice (BitsExp), edited in place
+								pn = "own-slice-edited-in-place"
+								z = fresh(p, m)
+								init := make([]Word, len(raw))
+								for i := range init {
+									init[i] = 7777777777777777777
+								}
+								z.SetBitsExp(init, 5)
+								z.Neg(z)
+								own, _ := z.BitsExp()
+								if len(own) != len(raw) {
+									c.Count("own_slice_length_differs", 1)
+									continue
+								}
+								copy(own, buf)
+								buf = own
+							}
 							pv, _ := protect(func() { z.SetBitsExp(buf, e) })
 							key := func() string {
-								return fmt.Sprintf("SetBitsExp(%s, %d) prec=%d mode=%s pre=%s", wordsKey(raw), e, p, modeName(m), preNames[pre])
+								return fmt.Sprintf("SetBitsExp(%s, %d) prec=%d mode=%s pre=%s", wordsKey(raw), e, p, modeName(m), pn)
 							}
 							ex := Val{Form: fZero}
 							if ci.Sign() != 0 {
